@@ -40,6 +40,7 @@ func TestVerifC04FxDoWithTimeout(t *testing.T) {
 		}
 		var opts []fx.DoOption
 		var cancel context.CancelFunc = func() {}
+		withCause := rapid.Bool().Draw(t, "callerCause") // the parent may end with a cause of its own: the result is still ctx.Err()
 		switch parent {
 		case "live":
 			c, cf := context.WithCancel(context.Background())
@@ -51,10 +52,20 @@ func TestVerifC04FxDoWithTimeout(t *testing.T) {
 			opts = append(opts, fx.WithContext(c))
 		case "earlierDeadline":
 			c, cf := context.WithTimeout(context.Background(), dt/2)
+			if withCause {
+				c, cf = context.WithTimeoutCause(context.Background(), dt/2, errors.New("caller's own deadline cause"))
+			}
 			cancel = cf
 			opts = append(opts, fx.WithContext(c))
 		case "cancelDuring":
-			c, cf := context.WithCancel(context.Background())
+			c, cc := context.WithCancelCause(context.Background())
+			cf := func() {
+				if withCause {
+					cc(errors.New("caller's own cancel cause"))
+				} else {
+					cc(nil)
+				}
+			}
 			cancel = cf
 			go func() { time.Sleep(dt / 3); cf() }()
 			opts = append(opts, fx.WithContext(c))
